@@ -2217,3 +2217,15 @@ def __getattr__(name):
     if name.startswith("__"):
         raise AttributeError(name)
     raise Unsupported(f"np.{name} is not modelled by the shim")
+
+
+class errstate:
+    """np.errstate(...): floating-point error handling does not exist for reals - a no-op context manager"""
+    def __init__(self, **kw):
+        pass
+
+    def __enter__(self):
+        return self
+
+    def __exit__(self, *a):
+        return False
